@@ -259,17 +259,26 @@ class Check:
 
     def finish(self):
         os.makedirs(REPLAY_DIR, exist_ok=True)
+        for f in os.listdir(REPLAY_DIR):
+            if f.startswith("%s-%s-" % (self.pid, self.tier)):
+                os.unlink(os.path.join(REPLAY_DIR, f))
         for fid, (what, c) in sorted(self.known_hits.items()):
             print("KNOWN-FINDING: property=%s %s (finding %s, %d occurrence(s) this run)" % (self.pid, what, fid, c))
         rc = 0
         vio_paths = []
-        for i, (what, payload) in enumerate(self.violations[:20]):
+        shown = {}
+        for i, (what, payload) in enumerate(self.violations[:40]):
             path = os.path.join(REPLAY_DIR, "%s-%s-%d.json" % (self.pid, self.tier, i))
             json.dump({"property": self.pid, "what": what, "replay": payload}, open(path, "w"), indent=1)
-            print("VIOLATION property=%s replay=%s" % (self.pid, path))
-            print("  " + what[:600])
-            vio_paths.append(path)
+            cls = what.split(":")[0]
+            shown[cls] = shown.get(cls, 0) + 1
+            if shown[cls] <= 3:
+                print("VIOLATION property=%s replay=%s" % (self.pid, path))
+                print("  " + what[:900])
             rc = 1
+        for cls, n in shown.items():
+            if n > 3:
+                print("  ... %d more violation(s) of class '%s' (replay files written)" % (n - 3, cls))
         ev = {
             "property_id": self.pid,
             "tier": self.tier,
